@@ -500,6 +500,11 @@ pub fn json_of(desc: &J, src: &Src, nodes: &[tree_sitter::Node]) -> J {
                     let val = value_in_any(v, &mut graph, nodes).expect("value");
                     let _ = graph[refs[i]].attributes.add(Identifier::from(k.as_str()), val);
                 }
+                // setting an attribute again to the value it has is accepted and changes nothing
+                for (k, v) in m {
+                    let val = value_in_any(v, &mut graph, nodes).expect("value");
+                    let _ = graph[refs[i]].attributes.add(Identifier::from(k.as_str()), val);
+                }
             }
             // the edges are created in a scrambled order (middle first, then alternating outwards), and every edge is created a
             // second time afterwards: neither may change the resulting edge set
@@ -532,7 +537,8 @@ pub fn json_of(desc: &J, src: &Src, nodes: &[tree_sitter::Node]) -> J {
         let mut j = serde_json::to_value(&graph).expect("serialise");
         let text = serde_json::to_string(&graph).expect("serialise");
         let reparsed: J = serde_json::from_str(&text).expect("valid json");
-        let valid = reparsed == j;
+        // (a parser merges repeated keys: the text must also be as long as the re-serialised value - no key written twice)
+        let valid = reparsed == j && serde_json::to_string(&reparsed).map(|t| t.len()).unwrap_or(0) == text.len();
         fix_syntax_ids(&mut j, src);
         let pretty = format!("{}", graph.pretty_print());
         let api = crate::exec::project_graph(&graph, src);
